@@ -46,6 +46,10 @@ PROPS = {
                    "extracted expressions and rewriting with the inverse pair gammainccinv/gammaincc (both directions normalise to the identity); the contour "
                    "level 1-exp(-s^2/2) equals the n=2 instance; setters clear the other representation; dimension of every ConfidenceLevel call site; "
                    "per-branch agreement of tail probability and converted level in the arrow computation; argument-slot rule along the profile call chain."),
+    "C08": ("c08", "Pairing rule on the CFG of every post-fit query of both minimizer adapters (and the generic code they inherit): each primitive that moves "
+                   "the backend or the graph away from the optimum is post-dominated by a restore; snapshots are taken before anything moves and dominate "
+                   "the restores; temporary fix() is released; mutators invalidate the adapter caches; _invalidate_cache covers all lazily computed fields; "
+                   "the did-fit flag is written only by reset/minimize/_load_state; save/load symmetry; NexusFitter write-back after minimizing."),
 }
 
 
